@@ -586,6 +586,9 @@ def obligations(S=None, radices=(2, 10, 16, 36), max_digits=2, digits_for=None):
 
 def replayer(o, model):
     role = o.role
+    if re.match(r"^C\d+:try_(add|sub|mul|div|rem):", role):
+        import arithlemmas
+        return arithlemmas.replayer(o, model)
     if ":abs:" in role:
         try:
             i = model.eval(z3.BitVec("v.Integer.0", 64), model_completion=True).as_signed_long()
